@@ -70,6 +70,7 @@ type Contract struct {
 	Inline        bool
 	Strict        bool
 	Trusted       bool
+	ReflectValid  bool // "reflect-validity": reflect.Value methods are checked against the zero Value (see reflectHooks)
 	ModAny        bool // "modifies-anything": no frame is claimed; callers forget every component the body may write
 	AssumedFrame  bool // the modifies clauses are used by callers but not checked against this body (listed as an assumption)
 	Lemma         bool
@@ -276,6 +277,8 @@ func parseContractFile(path, pkgPath string) ([]*Contract, error) {
 			cur.AssumedFrame = true
 		case "modifies-anything":
 			cur.ModAny = true
+		case "reflect-validity":
+			cur.ReflectValid = true
 		case "abstract":
 			cur.Abstract = true
 		case "allocates":
